@@ -18,7 +18,7 @@ BIN = {}
 
 
 def tool(binp, dialect, listo, inputs, stdin=b''):
-    return run([binp, '--dialect=' + dialect, '--listo=%d' % listo] + inputs, stdin=stdin)
+    return run([binp, '--dialect=' + dialect, '--listo=%d' % listo] + inputs, stdin=stdin, max_output=8 << 20)
 
 
 def unclean(res, r_, files):
